@@ -112,7 +112,9 @@ pub fn one_call(pat: Pat, psk_mask: u16, initiator: bool, k: usize, psk_missing:
             }
         },
         5 => {
-            let r = hs.into_transport_mode();
+            // both public entry points of the conversion: the method and the `TryFrom<HandshakeState>` impl
+            let via_tryfrom: bool = kani::any();
+            let r = if via_tryfrom { snow::TransportState::try_from(hs) } else { hs.into_transport_mode() };
             if finished {
                 assert!(r.is_ok(), "C11: conversion refused after the last message");
                 if let Ok(mut t) = r {
@@ -135,7 +137,8 @@ pub fn one_call(pat: Pat, psk_mask: u16, initiator: bool, k: usize, psk_missing:
             return;
         },
         _ => {
-            let r = hs.into_stateless_transport_mode();
+            let via_tryfrom: bool = kani::any();
+            let r = if via_tryfrom { snow::StatelessTransportState::try_from(hs) } else { hs.into_stateless_transport_mode() };
             if finished {
                 assert!(r.is_ok(), "C11: stateless conversion refused after the last message");
                 if let Ok(t) = r {
